@@ -535,6 +535,16 @@ def dict_contents_at(g, node, var, scenario, limit=4000):
                         return dict((k_.value, norm(x)) for k_, x in zip(v.keys, v.values))
                     if isinstance(v, ast.Call) and isinstance(v.func, ast.Name) and v.func.id == 'dict' and not v.args and all(k_.arg for k_ in v.keywords):
                         return dict((k_.arg, norm(k_.value)) for k_ in v.keywords)
+                    # a copy of another mapping (dict(other), dict(other, k=v), other.copy()): its entries are carried as '**other'
+                    if isinstance(v, ast.Call) and isinstance(v.func, ast.Name) and v.func.id == 'dict' and len(v.args) == 1 and isinstance(v.args[0], ast.Name) \
+                            and all(k_.arg for k_ in v.keywords):
+                        d2 = {'**': v.args[0].id}
+                        d2.update((k_.arg, norm(k_.value)) for k_ in v.keywords)
+                        return d2
+                    if isinstance(v, ast.Call) and isinstance(v.func, ast.Attribute) and v.func.attr == 'copy' and isinstance(v.func.value, ast.Name) and not v.args:
+                        return {'**': v.func.value.id}
+                    if isinstance(v, ast.Name):
+                        return {'**': v.id}           # the other mapping itself
                     bad[0] = True
                     return d
                 if isinstance(tg, ast.Subscript) and is_name(tg.value, var):
